@@ -258,4 +258,14 @@ theorem jux_tighter (a u k : String) (hu : u ≠ "%") (g : Nat) :
       some (.apply (.neg (.num a)) (.ident u), []) := by
   refine ⟨?_, ?_, ?_⟩ <;> simp [run, leftLoop, symHead, isNum, isApplyMul, hu]
 
+/-- implicit sums of quantities (`5 ft 3 in`), conversion with `to` below `+`, and function application by juxtaposition -/
+theorem jux_more (a u b v w f : String) (hu : u ≠ "%") (hv : v ≠ "%") (hw : w ≠ "%") (g : Nat) :
+    run (g + 60) .statements [.num a, .ident u, .num b, .ident v] =
+      some (.bop .implicitPlus (.applyMul (.num a) (.ident u)) (.applyMul (.num b) (.ident v)), []) ∧
+    run (g + 60) .statements [.num a, .ident u, .sym .conv, .ident v] = some (.as_ (.applyMul (.num a) (.ident u)) (.ident v), []) ∧
+    run (g + 60) .statements [.num a, .ident u, .sym .add, .num b, .ident v, .sym .conv, .ident w] =
+      some (.as_ (.bop .plus (.applyMul (.num a) (.ident u)) (.applyMul (.num b) (.ident v))) (.ident w), []) ∧
+    run (g + 60) .statements [.ident f, .num a] = some (.applyFn (.ident f) (.num a), []) := by
+  refine ⟨?_, ?_, ?_, ?_⟩ <;> simp [run, leftLoop, symHead, isNum, isApplyMul, hu, hv, hw]
+
 end Fend.Parser
